@@ -250,6 +250,10 @@ def app_from(ns, r, marks=None):
                     return make_iter("wsgi", chunks, r.get("raise_at"), marks)
                 if shape == "plain-iterator":
                     return PlainIterator(chunks, r.get("raise_at"))  # an iterator without close() (like map() or iter())
+                if shape in ("closing-list", "closing-tuple"):
+                    out = (ClosingList if shape == "closing-list" else ClosingTuple)(chunks)
+                    out.marks = marks
+                    return out
                 return ClosingIterable(chunks, marks)
         else:
             async def app(scope, receive, send):
@@ -302,6 +306,23 @@ class PlainIterator:
             raise StopIteration
         self.i += 1
         return self.chunks[self.i - 1]
+
+
+class ClosingList(list):
+    """a list of chunks that also has close() (PEP 3333: whatever the iterable is, its close() is called)"""
+    marks = None
+
+    def close(self):
+        if self.marks is not None:
+            self.marks["closed"] = self.marks.get("closed", 0) + 1
+
+
+class ClosingTuple(tuple):
+    marks = None
+
+    def close(self):
+        if self.marks is not None:
+            self.marks["closed"] = self.marks.get("closed", 0) + 1
 
 
 class ClosingIterable:
@@ -420,7 +441,7 @@ def gen_raw(rng):
                        [("Set-Cookie2", "old=style"), ("Set-Cookie", "a=1")], [("Set-Cookie-Policy", "x"), ("X-Set-Cookie", "y=1")]])
     return {"app": "raw", "status": rng.choice([200, 201, 404, 418, 599, 204, 304, 205, 600, 799, 999]), "headers": hdrs, "declare_length": rng.random() < 0.3,
             "chunks": [rng.choice([b"hello", b"world", b"", b"\x00\xff"]) for _ in range(n)],
-            "shape": rng.choice(["list", "tuple", "generator", "closing", "plain-iterator"]), "reuse_buffer": rng.random() < 0.2, "one_event": rng.random() < 0.5, "minimal_last": rng.random() < 0.3,
+            "shape": rng.choice(["list", "tuple", "generator", "closing", "plain-iterator", "closing-list", "closing-tuple"]), "reuse_buffer": rng.random() < 0.2, "one_event": rng.random() < 0.5, "minimal_last": rng.random() < 0.3,
             "restart": rng.random() < 0.15, "headers_as_iterator": rng.random() < 0.3}
 
 
